@@ -163,7 +163,16 @@ fn test(c: &Case, st: &mut Stats) -> TestResult {
             // ---- oracle B: sealed with K validates with K ---------------------------------------------
             match check_validate(&built, &spec.creds, st, "sealed message under its own credentials")? {
                 None => {
-                    st.class("built message refused (C03's business)");
+                    // check_validate gives None when the reference or the library refuses the buffer
+                    if matches!(refstun::parse(&built), RefParse::Accept(_)) {
+                        // a well-formed sealed message that the library will not even parse does not
+                        // validate under its own credentials either (also C03's statement)
+                        return Err(Fail::new(
+                            "c04-false-fail",
+                            format!("the message sealed by the builder is well-formed but refused by the parser, so it cannot be validated under its own credentials: {}", hex_short(&built)),
+                        ));
+                    }
+                    st.class("built message not well-formed (C03's business)");
                     return Ok(());
                 }
                 Some(ok) => ensure!(ok, "c04-false-fail", "sealed message does not validate under its own credentials"),
